@@ -287,7 +287,7 @@ pub fn strategy() -> BoxedStrategy<Case> {
         3 => goodbye,
         9 => prop_oneof![Just(0u64), Just(999), Just(1000), Just(1001), Just(2000), Just(5000), Just(10_000), Just(60_000), Just(120_000), Just(121_000), Just(4_500_000), Just(4_501_000), 0u64..12_000, 0u64..300_000].prop_map(|ms| Op::Advance { ms }),
         2 => (0usize..3, prop_oneof![Just(0u64), Just(1), Just(1000), Just(3000), Just(10_000), 0u64..30_000]).prop_map(|(inst, timeout_ms)| Op::Verify { inst, timeout_ms }),
-        2 => (any::<bool>(), prop_oneof![Just(0u64), Just(100), Just(700)]).prop_map(|(on, delay_ms)| Op::Responder { on, delay_ms }),
+        2 => (any::<bool>(), prop_oneof![Just(0u64), Just(100), Just(700)]).prop_map(|(on, delay_ms)| Op::Responder { on, delay_ms, mute: 0 }),
     ];
     (
         iftable(2),
